@@ -68,9 +68,16 @@ func runC10(c Case, m *Model) (v Verdict) {
 		r := NewRng(seed)
 		b := genStreamFile(r, m)
 		n := len(b)
+		// the number of fault offsets shrinks with the size of the file (every ask carries the whole file)
+		maxOff := 300
+		if n > 8000 {
+			maxOff = 40
+		} else if n > 2000 {
+			maxOff = 100
+		}
 		step := 1
-		if n > 300 {
-			step = n / 300
+		if n > maxOff {
+			step = n / maxOff
 		}
 		for k := 0; k <= n; k += step {
 			cuts := "-"
